@@ -57,7 +57,7 @@ func generate(r *simkit.Rand, prop string) *simkit.Plan {
 	levels := r.Range(1, 3)
 	k["levels"] = int64(levels)
 	k["level_step"] = int64(r.Range(1, 40))
-	flat := r.Chance(0.1)
+	flat := r.Chance(0.05)
 	used := map[int]bool{}
 	for s := 0; s < maxSenders; s++ {
 		price := 1200
